@@ -1,5 +1,173 @@
-import CstModel.Proofs.Red
-import CstModel.Model.Fmt
+/-
+  C14 — Replacing an element substitutes exactly that element.
+
+  Model: `replaceWith` / `replaceG` (`SyntaxNode::replace_with`, `SyntaxToken::replace_with`): kind
+  assertion, then every ancestor is rebuilt through `GreenNode::new` (length and hash recomputed).
+  Green values are immutable in the model; that the implementation leaves the original green tree
+  and red trees built on it untouched is checked by the harness (re-dump after every replacement).
+-/
+import CstModel.Props.C15
+import CstModel.Props.C04
+import CstModel.Model.Query
 namespace Cst.C14
-theorem placeholder : True := trivial
+
+/-- substitution in reference trees -/
+def substT : Tree → Path → Tree → Option Tree
+  | _, [], n => some n
+  | .node k cs, i :: p, n =>
+    match cs[i]? with
+    | some c => (substT c p n).map (fun c' => .node k (cs.set i c'))
+    | none => none
+  | .tok .., _ :: _, _ => none
+
+theorem resolveL_set {cfg : Cfg} {I : Interner} (cs : List Green) (ts : List Tree) (i : Nat) (c' : Green) (t' : Tree)
+    (hr : resolveL cfg I cs = some ts) (hc : resolveG cfg I c' = some t') :
+    resolveL cfg I (cs.set i c') = some (ts.set i t') := by
+  induction cs generalizing ts i with
+  | nil => simp [resolveL] at hr; subst hr; simp [resolveL]
+  | cons x xs ih =>
+    unfold resolveL at hr
+    cases hx : resolveG cfg I x with
+    | none => simp [hx] at hr
+    | some tx =>
+      cases hxs : resolveL cfg I xs with
+      | none => simp [hx, hxs] at hr
+      | some txs =>
+        simp only [hx, hxs, Option.some.injEq] at hr
+        subst hr
+        cases i with
+        | zero => simp [resolveL, hc, hxs]
+        | succ n => simp [resolveL, hx, ih txs n hxs]
+
+theorem resolveL_getElem {cfg : Cfg} {I : Interner} (cs : List Green) (ts : List Tree) (i : Nat) (c : Green)
+    (hr : resolveL cfg I cs = some ts) (hc : cs[i]? = some c) : ∃ t, resolveG cfg I c = some t ∧ ts[i]? = some t := by
+  induction cs generalizing ts i with
+  | nil => simp at hc
+  | cons x xs ih =>
+    unfold resolveL at hr
+    cases hx : resolveG cfg I x with
+    | none => simp [hx] at hr
+    | some tx =>
+      cases hxs : resolveL cfg I xs with
+      | none => simp [hx, hxs] at hr
+      | some txs =>
+        simp only [hx, hxs, Option.some.injEq] at hr
+        subst hr
+        cases i with
+        | zero => simp at hc; subst hc; exact ⟨tx, hx, by simp⟩
+        | succ n => simp at hc; obtain ⟨t, h1, h2⟩ := ih txs n hxs hc; exact ⟨t, h1, by simpa using h2⟩
+
+theorem GWfL_set {cfg : Cfg} {I : Interner} {cs : List Green} (h : GWfL cfg I cs) (i : Nat) {c' : Green}
+    (hc : GWf cfg I c') : GWfL cfg I (cs.set i c') := by
+  rw [GWfL_iff] at h ⊢
+  intro g hg
+  rcases List.mem_or_eq_of_mem_set hg with hg | hg
+  · exact h g hg
+  · exact hg ▸ hc
+
+/-- **the result contains the replacement at the chosen position and is the original everywhere
+    else**, it is well-formed (all lengths and hashes on the rebuilt spine are the recomputed ones),
+    and it resolves to the substituted tree -/
+theorem replace_spec (cfg : Cfg) (I : Interner) (id : Nat) :
+    (p : Path) → (g : Green) → (new : Green) → GWf cfg I g → GWf cfg I new → (g' : Green) →
+    replaceG cfg.H id g p new = some g' →
+    GWf cfg I g' ∧ ∃ tg tn t', resolveG cfg I g = some tg ∧ resolveG cfg I new = some tn ∧
+      substT tg p tn = some t' ∧ resolveG cfg I g' = some t'
+  | [], g, new, hg, hn, g', h => by
+    simp only [replaceG, Option.some.injEq] at h; subst h
+    obtain ⟨tg, rg, _⟩ := resolve_of_GWf g hg
+    obtain ⟨tn, rn, _⟩ := resolve_of_GWf new hn
+    exact ⟨hn, tg, tn, tn, rg, rn, rfl, rn⟩
+  | i :: p, g, new, hg, hn, g', h => by
+    simp only [replaceG] at h
+    cases hc : g.children[i]? with
+    | none => simp [hc] at h
+    | some c =>
+      simp only [hc, Option.map_eq_some_iff] at h
+      obtain ⟨c', hrec, rfl⟩ := h
+      cases g with
+      | tok _ _ _ _ => simp [Green.children] at hc
+      | node gid k l hh cs =>
+        simp only [Green.children, Green.kind] at hc ⊢
+        simp only [GWf] at hg
+        have hwc : GWf cfg I c := (GWfL_iff.mp hg.2.2) c (List.mem_of_getElem? hc)
+        obtain ⟨hwc', tc, tn, tc', r1, r2, r3, r4⟩ := replace_spec cfg I id p c new hwc hn c' hrec
+        obtain ⟨ts, hts, _⟩ := resolveL_of_GWfL cs hg.2.2
+        obtain ⟨tc0, h5, h6⟩ := resolveL_getElem cs ts i c hts hc
+        rw [r1] at h5; cases h5
+        refine ⟨C15.mkNew_wf cfg I _ k _ (GWfL_set hg.2.2 i hwc'), .node k ts, tn, .node k (ts.set i tc'), by simp [resolveG, hts], r2, ?_, ?_⟩
+        · simp [substT, h6, r3]
+        · simp [Green.mkNew, resolveG, resolveL_set cs ts i c' tc' hts r4]
+
+/-- everything off the spine is the same green value (shared, not copied) -/
+theorem replace_shares (H : HashFn) (id : Nat) (g : Green) (i : Nat) (p : Path) (new g' : Green)
+    (h : replaceG H id g (i :: p) new = some g') :
+    ∃ c', g'.children = g.children.set i c' ∧ g'.kind = g.kind := by
+  simp only [replaceG] at h
+  cases hc : g.children[i]? with
+  | none => simp [hc] at h
+  | some c =>
+    simp only [hc, Option.map_eq_some_iff] at h
+    obtain ⟨c', _, rfl⟩ := h
+    exact ⟨c', rfl, rfl⟩
+
+/-- a replacement of another kind is rejected (the assertion at the top of `replace_with`) -/
+theorem replace_kind_mismatch (H : HashFn) (id : Nat) (root : Green) (p : Path) (old new : Green)
+    (ho : Green.get root p = some old) (hk : old.kind ≠ new.kind) : replaceWith H id root p new = none := by
+  simp [replaceWith, ho, hk]
+
+theorem sumLen_of_beqL : (as bs : List Green) → Green.beqL as bs = true → sumLen as = sumLen bs
+  | [], [], _ => rfl
+  | a :: as, b :: bs, h => by
+    simp only [Green.beqL, Bool.and_eq_true] at h
+    have : a.len = b.len := by
+      cases a <;> cases b <;> simp [Green.beq] at h <;> simp [Green.len, h]
+    simp [sumLen, this, sumLen_of_beqL as bs h.2]
+  | [], _ :: _, h => by simp [Green.beqL] at h
+  | _ :: _, [], h => by simp [Green.beqL] at h
+
+theorem beqL_set (cs : List Green) (i : Nat) (c c' : Green) (hc : cs[i]? = some c) (hb : Green.beq c' c = true) :
+    Green.beqL (cs.set i c') cs = true := by
+  induction cs generalizing i with
+  | nil => simp at hc
+  | cons x xs ih =>
+    cases i with
+    | zero => simp at hc; subst hc; simp [Green.beqL, hb, C04.beqL_refl]
+    | succ n => simp at hc; simp [Green.beqL, C04.beq_refl, ih n hc]
+
+/-- stored length and hash of every node are the computed ones -/
+def LenHashOk (H : HashFn) : Green → Prop
+  | .tok .. => True
+  | .node _ _ l h cs => l = sumLen cs ∧ h = H cs ∧ ∀ c ∈ cs, LenHashOk H c
+
+/-- **replacing an element by an equal one yields a tree equal to the original** (`==`), for any
+    hash function that does not look at allocation identity — in particular the implementation's -/
+theorem replace_id (H : HashFn) (hH : C15.HRespects H) (id : Nat) :
+    (p : Path) → (g : Green) → LenHashOk H g → (old new : Green) → Green.get g p = some old →
+    Green.beq new old = true → ∃ g', replaceG H id g p new = some g' ∧ Green.beq g' g = true
+  | [], g, _, old, new, ho, hb => by
+    simp only [Green.get, Option.some.injEq] at ho; subst ho
+    exact ⟨new, rfl, hb⟩
+  | i :: p, g, hw, old, new, ho, hb => by
+    simp only [Green.get] at ho
+    cases hc : g.children[i]? with
+    | none => simp [hc] at ho
+    | some c =>
+      simp only [hc] at ho
+      cases g with
+      | tok _ _ _ _ => simp [Green.children] at hc
+      | node gid k l hh cs =>
+        simp only [Green.children] at hc
+        have hw' : l = sumLen cs ∧ hh = H cs ∧ ∀ c ∈ cs, LenHashOk H c := by simpa [LenHashOk] using hw
+        obtain ⟨c', h1, h2⟩ := replace_id H hH id p c (hw'.2.2 c (List.mem_of_getElem? hc)) old new ho hb
+        refine ⟨Green.mkNew H (id + p.length) k (cs.set i c'), by simp [replaceG, Green.children, hc, h1, Green.kind], ?_⟩
+        have hs := beqL_set cs i c c' hc h2
+        simp [Green.mkNew, Green.beq, hs, hw'.1, hw'.2.1, sumLen_of_beqL _ _ hs, hH _ _ hs]
+/-! ### non-vacuity -/
+example :
+    let H : HashFn := fun _ => 0
+    let g : Green := .node 0 0 2 0 [.tok 1 10 (some 0) 1, .node 2 1 1 0 [.tok 3 10 (some 1) 1]]
+    (replaceWith H 9 g [1, 0] (.tok 4 10 (some 0) 3)).map (fun g' => (g'.len, g'.children.map Green.len)) = some (4, [1, 3]) := by
+  decide +kernel
+
 end Cst.C14
